@@ -115,9 +115,12 @@ func Deserializer.ReadString
   requires d != nil && inv(d) && s != nil
   requires lenType == SeriLengthPrefixTypeAsByte || lenType == SeriLengthPrefixTypeAsUint16 || lenType == SeriLengthPrefixTypeAsUint32
   callback errProducer(e) (r)
+    ensures e != nil ==> r != nil          -- (assumed of the caller's producer: it turns an error into an error)
   modifies d.offset, d.err, *s
   ensures r0 == d && inv(d) && d.src == old(d.src) && d.offset >= old(d.offset)
   ensures old(d.err) != nil ==> d.offset == old(d.offset) && d.err == old(d.err)
+  -- a string that is read without an error is inside both bounds, each of them on its own (0: no bound)
+  ensures old(d.err) == nil && d.err == nil ==> (maxLen <= 0 || len(*s) <= maxLen) && (minLen <= 0 || len(*s) >= minLen)
 
 func Deserializer.GetObjectType
   requires d != nil && inv(d)
